@@ -42,15 +42,17 @@ func ValsOf(field string) []string {
 		return msgVals
 	case "num":
 		return NumVals
+	case "dur":
+		return DurVals
 	case "_exists_":
-		return []string{"svc", "lvl", "trace", "msg", "num", "nope"}
+		return []string{"svc", "lvl", "trace", "msg", "num", "dur", "nope"}
 	case "_all_":
 		return []string{""}
 	}
 	return []string{"a"}
 }
 
-var AllFields = []string{"svc", "lvl", "trace", "msg", "num"}
+var AllFields = []string{"svc", "lvl", "trace", "msg", "num", "dur"}
 
 // CorpusOpts steers the shape of a generated corpus.
 type CorpusOpts struct {
@@ -69,7 +71,7 @@ func pick(t *rapid.T, vals []string, label string) string {
 func DocTokens(t *rapid.T) []model.Tok {
 	toks := []model.Tok{{F: "_all_", V: ""}}
 	add := func(f, v string) { toks = append(toks, model.Tok{F: f, V: v}) }
-	present := rapid.IntRange(0, 31).Draw(t, "present")
+	present := rapid.IntRange(0, 63).Draw(t, "present")
 	if present&1 != 0 {
 		add("_exists_", "svc")
 		add("svc", pick(t, svcVals, "svc"))
@@ -93,7 +95,45 @@ func DocTokens(t *rapid.T) []model.Tok {
 		add("_exists_", "num")
 		add("num", pick(t, NumVals, "num"))
 	}
+	if present&32 != 0 {
+		add("_exists_", "dur")
+		add("dur", pick(t, DurVals, "dur"))
+	}
 	return toks
+}
+
+// DurVals: the numeric-only field used by aggregations (negatives, decimals, exponents,
+// long mantissas; two spellings of the same number on purpose).
+var DurVals = []string{"0", "1", "2", "3", "10", "-1", "-7", "2.5", "-0.5", "1e2", "100", "1.5e1", "15", "0.1", "0.2", "0.30000000000000004", "123456789.125", "1e-3", "4e15", "9007199254740993"}
+
+// AggSpecs draws 0..3 aggregation requests over the generated vocabulary.
+func AggSpecs(t *rapid.T, max int) []model.AggSpec {
+	n := rapid.IntRange(0, max).Draw(t, "naggs")
+	var out []model.AggSpec
+	for i := 0; i < n; i++ {
+		s := model.AggSpec{Func: rapid.SampledFrom([]string{"count", "sum", "min", "max", "avg", "quantile", "unique"}).Draw(t, "func")}
+		groups := []string{"svc", "lvl", "trace"}
+		switch s.Func {
+		case "count", "unique":
+			s.GroupBy = pick(t, groups, "group")
+		default:
+			s.Field = "dur"
+			if rapid.Bool().Draw(t, "grouped") {
+				s.GroupBy = pick(t, groups, "group")
+			}
+		}
+		if s.Func != "unique" {
+			s.Interval = rapid.SampledFrom([]int64{0, 0, 1, 7, 1000, 60_000}).Draw(t, "agginterval")
+		}
+		if s.Func == "quantile" {
+			nq := rapid.IntRange(1, 3).Draw(t, "nq")
+			for j := 0; j < nq; j++ {
+				s.Quantiles = append(s.Quantiles, rapid.SampledFrom([]float64{0.5, 0, 1, 0.25, 0.9, 0.99}).Draw(t, "q"))
+			}
+		}
+		out = append(out, s)
+	}
+	return out
 }
 
 func Body(t *rapid.T, i int, max int) []byte {
